@@ -171,9 +171,27 @@ pub fn drive(args: &HashMap<String, String>) {
     let mut cases = vec![];
     for i in 0..n {
         let p = g.prog(1 + i % 4, i % 2 == 0);
-        let e = if g.rng.random_bool(0.3) { g.list_env(10) } else { g.value(3) };
+        let mut e = if g.rng.random_bool(0.3) { g.list_env(10) } else { g.value(3) };
+        // every third case: an environment built along one of the program's path atoms (so that wide, sign-bit and padded
+        // paths resolve and the rows report what was found there)
+        if i % 3 == 1 {
+            if let Some(along) = g.env_along(&p) {
+                e = along;
+            }
+        }
         if p.size() < 200 {
             cases.push((p, e));
+        }
+    }
+    // path atoms at byte and sign boundaries, alone and under first / rest, each in the environment built along it
+    for bytes in [vec![0x80u8], vec![0xff], vec![0x7f], vec![0x80, 0x00], vec![0xff, 0xff], vec![0x00, 0x80], vec![0x00, 0xff], vec![0xff, 0x80], vec![0x80, 0x00, 0x00], vec![0x01, 0x00],
+        vec![0xbf], vec![0x00, 0x00, 0x05], vec![0xff, 0xff, 0xff, 0xff, 0xff, 0xff, 0xff, 0xff], vec![0x80, 0, 0, 0, 0, 0, 0, 0]] {
+        let pth = V::A(bytes);
+        let f = |op: u8, x: V| V::list(&[V::A(vec![op]), x]);
+        for prog in [pth.clone(), f(5, pth.clone()), f(6, pth.clone()), V::list(&[V::A(vec![16]), pth.clone(), V::cons(V::A(vec![1]), V::int(1))])] {
+            if let Some(env) = g.env_along(&pth) {
+                cases.push((prog, env));
+            }
         }
     }
     // compiled generated programs (every dialect) with argument trees
